@@ -102,13 +102,7 @@ class ILEval:
         if isinstance(e, prim.Variable):
             if e.name in env:
                 return env[e.name]
-            if e.name in self.bindings:
-                a = self.bindings[e.name]
-                if a.shape != ():
-                    raise UnsupportedExpr(
-                        f"non-scalar binding {e.name!r} used without subscript")
-                return a[()]
-            raise UnsupportedExpr(f"unbound variable {e.name!r}")
+            return self.lookup_var(e.name, env, mask)
         if isinstance(e, prim.Subscript):
             return self._subscript(e, env, mask)
         if isinstance(e, prim.Sum):
@@ -195,21 +189,41 @@ class ILEval:
             args = [self.ev(p, env, mask) for p in e.parameters]
             return fn(*args)
         tn = type(e).__name__
-        if tn == "TypeCast":
+        if tn == "TypeCast" and hasattr(e, "inner_expr"):
             v = self.ev(e.inner_expr, env, mask)
             return np.asarray(v).astype(e.dtype)
         if tn == "Reduce":
-            return self._reduce(e, env, mask)
-        raise UnsupportedExpr(f"expression node {tn}")
+            return self._reduce(type(e.op).__name__, list(e.bounds.keys()),
+                                dict(e.bounds), e.inner_expr, env, mask)
+        return self.ev_other(e, env, mask)
+
+    # -- hooks for subclasses (loopy kernel interpreter)
+    def ev_other(self, e: Any, env: dict[str, np.ndarray], mask: np.ndarray) -> Any:
+        raise UnsupportedExpr(f"expression node {type(e).__name__}")
+
+    def lookup_var(self, name: str, env: dict[str, np.ndarray], mask: np.ndarray) -> Any:
+        if name in self.bindings:
+            a = self.bindings[name]
+            if a.shape != ():
+                raise UnsupportedExpr(
+                    f"non-scalar binding {name!r} used without subscript")
+            return a[()]
+        raise UnsupportedExpr(f"unbound variable {name!r}")
+
+    def lookup_array(self, name: str) -> np.ndarray:
+        if name not in self.bindings:
+            raise UnsupportedExpr(f"subscript of unbound {name!r}")
+        return self.bindings[name]
+
+    def note_read(self, name: str, ixs: list[np.ndarray], mask: np.ndarray) -> None:
+        """Called for every gather (subclasses track read-before-write)."""
 
     def _subscript(self, e: prim.Subscript, env: dict[str, np.ndarray],
                    mask: np.ndarray) -> Any:
         if not isinstance(e.aggregate, prim.Variable):
             raise UnsupportedExpr("subscript of non-variable")
         name = e.aggregate.name
-        if name not in self.bindings:
-            raise UnsupportedExpr(f"subscript of unbound {name!r}")
-        a = self.bindings[name]
+        a = self.lookup_array(name)
         idx = e.index if isinstance(e.index, tuple) else (e.index,)
         if len(idx) != a.ndim:
             self.oob.append({"array": name, "kind": "rank-mismatch",
@@ -243,6 +257,7 @@ class ILEval:
                                      "index_expr": str(ie)})
                 iva = np.clip(iva, 0, max(ext - 1, 0))
             ixs.append(iva)
+        self.note_read(name, ixs, mask)
         if a.size == 0:
             shp = np.broadcast_shapes(*[i.shape for i in ixs]) if ixs else ()
             return np.zeros(shp, dtype=a.dtype)
@@ -250,16 +265,15 @@ class ILEval:
             return a[()]
         return a[tuple(ixs)]
 
-    def _reduce(self, e: Any, env: dict[str, np.ndarray], mask: np.ndarray) -> Any:
-        opname = type(e.op).__name__
-        names = list(e.bounds.keys())
+    def _reduce(self, opname: str, names: list[str], bounds: dict[str, Any], inner_expr: Any,
+                env: dict[str, np.ndarray], mask: np.ndarray) -> Any:
         k = len(names)
         env2 = dict(env)
         mask2 = mask
         d0 = len(self.grid)
         saved_grid = list(self.grid)
         for name in names:
-            lb_e, ub_e = e.bounds[name]
+            lb_e, ub_e = bounds[name]
             lb = np.asarray(self.ev(lb_e, env2, mask2)).astype(np.int64)
             ub = np.asarray(self.ev(ub_e, env2, mask2)).astype(np.int64)
             width = np.broadcast_to(ub - lb, tuple(self.grid))
@@ -275,7 +289,7 @@ class ILEval:
             env2[name] = r
             mask2 = mask2.reshape(mask2.shape + (1,)) & mr
             self.grid.append(ext)
-        inner = self.ev(e.inner_expr, env2, mask2)
+        inner = self.ev(inner_expr, env2, mask2)
         full = tuple(self.grid)
         v = np.broadcast_to(np.asarray(inner), full)
         m = np.broadcast_to(mask2, full)
@@ -301,8 +315,12 @@ class ILEval:
                 res = np.min(np.where(m, v, np.asarray(neutral, dtype=dt)), axis=axes)
         elif opname == "AllReductionOperation":
             res = np.all(np.where(m, v.astype(bool), True), axis=axes)
+            if getattr(self, "anyall_keep_arg_dtype", False):
+                res = res.astype(dt)      # loopy: result dtype of all/any = operand dtype
         elif opname == "AnyReductionOperation":
             res = np.any(np.where(m, v.astype(bool), False), axis=axes)
+            if getattr(self, "anyall_keep_arg_dtype", False):
+                res = res.astype(dt)
         else:
             raise UnsupportedExpr(f"reduction op {opname}")
         self.grid = saved_grid
